@@ -204,6 +204,10 @@ impl<'a> MlpgGlobalVariance<'a> {
         let (mean, vari) = self.calc_gv();
         #[cfg(feature = "verif-hooks")]
         crate::verif::point("gv.conv");
+        if vari <= 0.0 {
+            // a constant trajectory has no variance to rescale (sqrt(x / 0) * 0 would be NaN)
+            return;
+        }
         let ratio = (gv_mean / vari).sqrt();
         self.par
             .iter_mut()
